@@ -59,16 +59,25 @@ Ltac tie_nums :=
   | |- context [Z.to_nat ?z] => let v := eval cbv in (Z.to_nat z) in is_nat_num v; progress change (Z.to_nat z) with v
   | |- context [N.to_nat ?z] => let v := eval cbv in (N.to_nat z) in is_nat_num v; progress change (N.to_nat z) with v
   end.
+(* every constant of type N or Z whose body is a numeral (the integer constants of gen/Consts.v, whichever the
+   current Go code refers to -- a refactoring may introduce new ones --, two64, ...) is replaced by its value *)
+Ltac tie_consts :=
+  repeat match goal with
+  | |- context [?c] =>
+    is_const c;
+    let T := type of c in
+    lazymatch T with N => idtac | Z => idtac end;
+    let v := eval unfold c in c in
+    lazymatch v with N0 => idtac | Npos _ => idtac | Z0 => idtac | Zpos _ => idtac | Zneg _ => idtac end;
+    progress change c with v in *
+  end.
 (* the vocabulary of both sides, down to list operations and comparisons of numbers *)
 Ltac tie_unfold :=
-  unfold go_slice_to, go_slice, go_slice_from, go_make_bytes, go_index, go_set_index, go_len, bytes_equal, go_deref,
+  unfold go_slice_to, go_slice, go_slice_from, go_make_bytes, go_index, go_set_index, go_len, bytes_equal, bytes_has_prefix, bytes_has_suffix, go_deref,
     go_break, go_continue, int_add, int_sub, int_mul, wrap_int, two63Z, two64Z,
     u8_add, u8_sub, u8_mul, u32_add, u32_sub, u32_mul, u64_add, u64_sub, u64_mul, u_and, u_or,
     is_empty_address, slice_to, slice, index, blen, zeros, mask, bor, two64, two32 in *;
-  unfold C.numInitCharactersForSystemAccountAddress, C.NumInitCharactersForScAddress, C.VMTypeLen,
-    C.numInitCharactersForOnMetachainSC, C.metaChainShardIdentifier, C.lengthOfCodeMetadata,
-    C.MetadataUpgradeable, C.MetadataReadable, C.MetadataPayable, C.bif_lengthOfESDTMetadata,
-    C.bif_MetadataPaused, C.bif_MetadataFrozen in *;
+  tie_consts;
   unfold go_ret, go_bind, option_map in *; cbv zeta; tie_nums; cbn [skipn] in *.
 Ltac tie_destruct x :=
   lazymatch x with
